@@ -13,18 +13,32 @@ operation's outcome:
 
 program = ops joined by `;` (`-` = empty):
   `S<rows>`            from_vec of `(k,v)` rows (`k.v` joined by `_`)
-  `D<ref>/<fn>`        map/filter on an existing collection of any element type; fn ∈ `a<n>` v+n | `m<n>` v*n |
-                       `k<m>` k:=(k+pv) mod m | `f<m>.<r>` keep pv mod m ≠ r   (pv = the value, or the sum of a group)
+  `U<rows>`            from_custom_source with a user `VecOps` over the same rows
+  `R<n>/<rows>` / `X<n>/<rows>`  read_jsonl_streaming / read_csv_streaming of a file holding the rows, `n` lines per shard
+  `D<ref>/<fn>`        a stateless builder on an existing collection of any element type; fn ∈
+                       `a<n>` map v+n | `m<n>` map v*n | `k<m>` map k:=(k+pv) mod m | `f<m>.<r>` filter: keep pv mod m ≠ r |
+                       `x<n>` flat_map: pv mod 3 = 0 → nothing, 1 → the row, 2 → the row and the row with v+n |
+                       `B<size>.<n>` map_batches(size, v+n) | `T<n>` apply_transform(custom DynOp v+n) |
+                       `i<n>` debug_inspect_with (identity, the inspector is a user function)
+                       (pv = the value, or the sum of a group; user-function calls are counted per ELEMENT seen)
+  `W<ref>/<vfn>`       a value-only builder on a `(k,v)` collection; vfn ∈ `m<c>` map_values v*c (c odd) |
+                       `f<r>` filter_values: keep v mod 2 ≠ r | `b<size>.<c>` map_values_batches(size, v*c)
+                       (these commute, so the planner's value-only reorder pass — filters first, then by cost hint — is
+                       invisible in the rows; it IS visible in the call counts, so `exec` below contains it)
   `G<ref>`             group_by_key of a `(k,v)` collection
   `V<ref>/<bias>`      combine_values(sum+bias) of a `(k,v)` collection
   `L<ref>/<bias>`      combine_values_lifted(sum+bias) of a grouped collection
   `A<ref>/<bias>/<fanout|n>`  combine_globally((Σk mod 2, Σv+bias), fanout) of a `(k,v)` collection
+  `Q<ref>/<bias>/<fanout|n>`  combine_globally_lifted of the same combiner
   `J<i|l|r|f><ref>/<ref>`  join_inner / _left / _right / _full of two existing `(k,v)` collections
-  `C<ref>/<mode>`      collect (mode `s` | `p<parts>`; the model's answer does not depend on it)
-  `M+` / `M-`          set_metrics / take_metrics
+  `C<ref>/<mode>`      collect; mode `s` collect_seq | `p<parts>` collect_par(None, parts) | `c` collect() |
+                       `o` collect_seq_sorted | `q<parts>` collect_par_sorted | `t<threads>` collect_par(threads, None) |
+                       `k` / `K<parts>` a `Runner` with checkpointing enabled, sequential / parallel
+                       (the model's answer does not depend on the mode)
+  `M+` / `M-` / `M?`   set_metrics / take_metrics / get_metrics
 ref = `f<k>` pool[k mod len] | `b<k>` pool from the back | `m<k>` own results from the back (else pool)
 outcome = `B<id>` built | `C<id>:<sorted rows>` collected | `K` skipped | `P` panicked | `C<id>:ERR…` |
-          `M` metrics set | `M1`/`M0` take_metrics returned Some/None
+          `M` metrics set | `M1`/`M0` take_metrics returned Some/None | `M?1`/`M?0` get_metrics returned Some/None
 row = `k.v` | `k.v.w` (join; `n` = None) | `k.g<v1>+<v2>…` (group, values sorted)
 
 `GINV <nextId> <ids> <edges>` — evaluates the decidable graph invariant on a snapshot taken from the REAL
@@ -35,6 +49,8 @@ open IB.Wire IB.Graph
 
 inductive Fn where
   | add (n : Int) | mul (n : Int) | rekey (m : Nat) | drop (m r : Nat)
+  | flat (n : Int) | ident
+  | vmul (c : Int) | vfil (r : Nat) | vbat (c : Int)      -- value-only: map_values / filter_values / map_values_batches
 
 inductive Cell where
   | absent | null | val (i : Int) | list (l : List Int)
@@ -74,6 +90,32 @@ def applyFn (f : Fn) (rows : List Row) : List Row :=
   | .mul n => rows.map (fun r => { r with v := r.v.mapv (· * n) })
   | .rekey m => rows.map (fun r => { r with k := (r.k + r.v.pv) % (Int.ofNat m) })
   | .drop m r => rows.filter (fun x => x.v.pv % (Int.ofNat m) != Int.ofNat r)
+  | .flat n => rows.flatMap (fun r =>
+      let m := r.v.pv % 3
+      if m == 0 then [] else if m == 1 then [r] else [r, { r with v := r.v.mapv (· + n) }])
+  | .ident => rows
+  | .vmul c => rows.map (fun r => { r with v := r.v.mapv (· * c) })
+  | .vfil q => rows.filter (fun x => x.v.pv % 2 != Int.ofNat q)
+  | .vbat c => rows.map (fun r => { r with v := r.v.mapv (· * c) })
+
+/-- `DynOp::value_only() && key_preserving() && reorder_safe_with_value_only()` (collection.rs) -/
+def Fn.valueOnly : Fn → Bool
+  | .vmul _ | .vfil _ | .vbat _ => true
+  | _ => false
+
+/-- `DynOp::cost_hint()`: filter_values 1, map_values_batches 2, map_values 3 -/
+def Fn.cost : Fn → Nat
+  | .vfil _ => 1
+  | .vbat _ => 2
+  | .vmul _ => 3
+  | _ => 10
+
+/-- planner.rs `fuse_stateless` + `reorder_value_only_runs`: a maximal run of adjacent stateless ops, ALL value-only
+    and more than one, is stably sorted by `(cost ≠ 1, cost)` -/
+def planRun (ops : List Fn) : List Fn :=
+  if ops.length > 1 && ops.all Fn.valueOnly then
+    ops.mergeSort (fun a b => decide ((if a.cost == 1 then a.cost else 100 + a.cost) ≤ (if b.cost == 1 then b.cost else 100 + b.cost)))
+  else ops
 
 def keysOf (rows : List Row) : List Int := (rows.map (·.k)).eraseDups
 
@@ -94,13 +136,38 @@ def combineRows (b : Int) (rows : List Row) : List Row :=
 def globalRow (b : Int) (rows : List Row) : List Row :=
   [{ k := ((rows.map (·.k)).sum) % 2, v := .val ((rows.map (·.v.pv)).sum + b), w := .absent }]
 
-/-- one node of a chain: new buffer and the number of user-function calls (closure / `add_input`) it made -/
+/-- a chain cut into maximal runs of adjacent stateless ops and the other nodes -/
+inductive Seg (α : Type) where
+  | run (ops : List Fn)
+  | node (n : α)
+
+def segments {α : Type} (isOp : α → Option Fn) : List α → List (Seg α)
+  | [] => []
+  | n :: rest =>
+    match isOp n, segments isOp rest with
+    | some f, .run ops :: more => .run (f :: ops) :: more
+    | some f, more => .run [f] :: more
+    | none, more => .node n :: more
+
+/-- a run of stateless ops on a buffer; every op's user function is called once per element it sees -/
+def applyRun (ops : List Fn) (rows : List Row) (cnt : Nat) : List Row × Nat :=
+  ops.foldl (fun (acc : List Row × Nat) f => (applyFn f acc.1, acc.2 + acc.1.length)) (rows, cnt)
+
+def Flat.isOp : Flat → Option Fn
+  | .op f => some f
+  | _ => none
+
+/-- one non-stateless node of a chain: new buffer and the number of user-function calls (`add_input`) it made.
+    A source is read the way `exec_seq` reads it (`Model/Pipeline.lean: readSource`, `VecOpsImpl`). -/
 def stepFlat (acc : Except String (Option (List Row) × Nat)) (n : Flat) : Except String (Option (List Row) × Nat) :=
   match acc with
   | .error e => .error e
   | .ok (cur, cnt) =>
     match n, cur with
-    | .src rows, _ => .ok (some rows, cnt)
+    | .src rows, _ =>
+      match (readSource (vecOps Row) rows none).2 with
+      | some parts => .ok (some parts.flatten, cnt)
+      | none => .error "ERR-unsupported-source"
     | .dummy, _ => .ok (some [], cnt)
     | .cog, _ => .error "ERR-nested"
     | _, none => .error "PANIC"
@@ -110,9 +177,21 @@ def stepFlat (acc : Except String (Option (List Row) × Nat)) (n : Flat) : Excep
     | .cvl b, some rows => .ok (some (combineRows b rows), cnt + ((rows.map (·.v.vals.length)).sum))
     | .cg b, some rows => .ok (some (globalRow b rows), cnt + rows.length)
 
-/-- `run_subplan_seq` on a captured chain -/
+def stepSeg (planned : Bool) (acc : Except String (Option (List Row) × Nat)) (sg : Seg Flat) :
+    Except String (Option (List Row) × Nat) :=
+  match sg with
+  | .node n => stepFlat acc n
+  | .run ops =>
+    match acc with
+    | .error e => .error e
+    | .ok (none, _) => .error "PANIC"
+    | .ok (some rows, cnt) =>
+      let r := applyRun (if planned then planRun ops else ops) rows cnt
+      .ok (some r.1, r.2)
+
+/-- `run_subplan_seq` on a captured chain (the planner passes do NOT run on a join's sub-chains) -/
 def runSub (chain : List Flat) : Except String (List Row × Nat) :=
-  match chain.foldl stepFlat (.ok (none, 0)) with
+  match (segments Flat.isOp chain).foldl (stepSeg false) (.ok (none, 0)) with
   | .error e => .error e
   | .ok (some rows, n) => .ok (rows, n)
   | .ok (none, _) => .error "PANIC"
@@ -128,13 +207,19 @@ def joinRows (tag : Nat) (l r : List Row) : List Row :=
   | 2 => inner ++ ronly
   | _ => inner ++ lonly ++ ronly
 
-/-- `exec_seq` on the chain a collect planned (the planner passes do not change what such a chain computes;
-    that is property C03's business): result rows and the number of user-function calls of the run -/
+def ND.isOp : ND → Option Fn
+  | .flat (.op f) => some f
+  | _ => none
+
+/-- `exec_seq` on the chain a collect planned: stateless fusion + the value-only reorder pass are applied (they decide
+    how often each user function is called); the GBK-lifting pass changes neither rows nor call counts. Result rows and
+    the number of user-function calls of the run. -/
 def exec (chain : List ND) : Except String (List Row × Nat) :=
-  let step := fun (acc : Except String (Option (List Row) × Nat)) (n : ND) =>
-    match n with
-    | .flat f => stepFlat acc f
-    | .cog tag l r =>
+  let step := fun (acc : Except String (Option (List Row) × Nat)) (sg : Seg ND) =>
+    match sg with
+    | .run ops => stepSeg true acc (.run ops)
+    | .node (.flat f) => stepFlat acc f
+    | .node (.cog tag l r) =>
       match acc with
       | .error e => .error e
       | .ok (_, cnt) =>
@@ -142,7 +227,7 @@ def exec (chain : List ND) : Except String (List Row × Nat) :=
         | .ok a, .ok b => .ok (some (joinRows tag a.1 b.1), cnt + a.2 + b.2)
         | .error e, _ => .error e
         | _, .error e => .error e
-  match chain.foldl step (.ok (none, 0)) with
+  match (segments ND.isOp chain).foldl step (.ok (none, 0)) with
   | .error e => .error e
   | .ok (some rows, n) => .ok (rows, n)
   | .ok (none, _) => .error "ERR-empty"
@@ -193,7 +278,34 @@ def parseFn? (s : String) : Option Fn :=
       | some m, some r => if m = 0 then none else some (.drop m r)
       | _, _ => none
     | _ => none
+  | 'x' => (parseInt? body).map Fn.flat
+  | 'B' => match body.splitOn "." with
+    | [sz, n] => match parseNat? sz, parseInt? n with
+      | some sz, some n => if sz = 0 then none else some (.add n)
+      | _, _ => none
+    | _ => none
+  | 'T' => (parseInt? body).map Fn.add
+  | 'i' => (parseInt? body).map (fun _ => Fn.ident)
   | _ => none
+
+def parseVFn? (s : String) : Option Fn :=
+  let body := (s.drop 1).toString
+  match s.front with
+  | 'm' => (parseInt? body).map Fn.vmul
+  | 'f' => match parseNat? body with
+    | some r => if r < 2 then some (.vfil r) else none
+    | none => none
+  | 'b' => match body.splitOn "." with
+    | [sz, c] => match parseNat? sz, parseInt? c with
+      | some sz, some c => if sz = 0 then none else some (.vbat c)
+      | _, _ => none
+    | _ => none
+  | _ => none
+
+def parseMode? (m : String) : Bool :=
+  let num := (parseNat? (m.drop 1).toString).isSome
+  m == "s" || m == "c" || m == "o" || m == "k" ||
+  ((m.startsWith "p" || m.startsWith "q" || m.startsWith "t" || m.startsWith "K") && num)
 
 def parseJoinTag? (c : Char) : Option Nat :=
   match c with
@@ -207,6 +319,15 @@ def parseOp? (s : String) : Option (Op ND) :=
   let body := (s.drop 1).toString
   match s.front with
   | 'S' => (parseRows? body).map (fun rows => Op.source (.flat (.src rows)))
+  | 'U' => (parseRows? body).map (fun rows => Op.source (.flat (.src rows)))
+  | 'R' | 'X' => match body.splitOn "/" with
+    | [n, rows] => match parseNat? n with
+      | some n => if n = 0 then none else (parseRows? rows).map (fun rows => Op.source (.flat (.src rows)))
+      | none => none
+    | _ => none
+  | 'W' => match body.splitOn "/" with
+    | [r, f] => do pure (Op.derive (← parseRef? r) (some (0, 0)) (.flat (.op (← parseVFn? f))))
+    | _ => none
   | 'D' => match body.splitOn "/" with
     | [r, f] => do pure (Op.derive (← parseRef? r) none (.flat (.op (← parseFn? f))))
     | _ => none
@@ -217,7 +338,7 @@ def parseOp? (s : String) : Option (Op ND) :=
   | 'L' => match body.splitOn "/" with
     | [r, b] => do pure (Op.derive (← parseRef? r) (some (2, 0)) (.flat (.cvl (← parseInt? b))))
     | _ => none
-  | 'A' => match body.splitOn "/" with
+  | 'A' | 'Q' => match body.splitOn "/" with
     | [r, b, fo] =>
       if fo == "n" || (parseNat? fo).isSome then
         do pure (Op.derive (← parseRef? r) (some (0, 0)) (.flat (.cg (← parseInt? b))))
@@ -228,10 +349,10 @@ def parseOp? (s : String) : Option (Op ND) :=
     | _ => none
   | 'C' => match body.splitOn "/" with
     | [r, m] =>
-      if m == "s" || (m.startsWith "p" && (parseNat? (m.drop 1).toString).isSome) then (parseRef? r).map Op.collect
-      else none
+      if parseMode? m then (parseRef? r).map Op.collect else none
     | _ => none
-  | 'M' => if body == "+" then some .setMetrics else if body == "-" then some .takeMetrics else none
+  | 'M' => if body == "+" then some .setMetrics else if body == "-" then some .takeMetrics
+    else if body == "?" then some .getMetrics else none
   | _ => none
 
 def parseProg? (s : String) : Option (List (Op ND)) :=
@@ -251,6 +372,7 @@ def siteCode (s : String) : String :=
   | "record_metrics_end" => "e"
   | "set_metrics" => "M"
   | "take_metrics" => "K"
+  | "get_metrics" => "g"
   | _ => "x"
 
 /-- run the schedule, recording the site each step goes through -/
@@ -284,6 +406,7 @@ def showOutcome : Outcome ND → String
   | .panicked => "P"
   | .metricsSet => "M"
   | .metricsTaken b => if b then "M1" else "M0"
+  | .metricsGot b => if b then "M?1" else "M?0"
 
 /-- user-function calls implied by the traces of user-code runs of all threads (`Cfg.calls`) -/
 def userCalls (c : Cfg ND) : Nat :=
@@ -324,11 +447,7 @@ def parseEdges? (s : String) : Option (List (Nat × Nat)) :=
     | [a, b] => do pure ((← parseNat? a), (← parseNat? b))
     | _ => none)
 
-/-- the graph part of `AInv` (`ids`, `edgeLt`, `inDeg`), executable; ids are given sorted -/
-def graphInvB (nextId : Nat) (ids : List Nat) (edges : List (Nat × Nat)) : Bool :=
-  ids == List.range nextId &&
-  edges.all (fun e => e.1 < e.2 && e.2 < nextId) &&
-  (edges.map Prod.snd).eraseDups.length == edges.length
+/- `graphInvB` is `IB.Graph.graphInvB` (`Model/Pipeline.lean`; `Props/C08.lean: graphInvB_iff`); ids are given sorted -/
 
 def handleGinv : List String → String
   | [n, ids, es] =>
